@@ -64,6 +64,24 @@ static int elem_idx(const UCell&) { return 1; }
 static void variant_special() {
   { Special s{"c12"};
     big_case<0>(s); big_case<1>(s); big_case<63>(s); big_case<64>(s); big_case<126>(s); big_case<127>(s); big_case<128>(s); big_case<129>(s);
+    // an alternative with a constructor taking std::initializer_list of itself (a JSON-like recursive value): a copy must be a copy, not a one-element list
+    { struct JV { std::vector<JV> items; int leaf = 0; JV() = default; JV(int l) : leaf(l) {} JV(std::initializer_list<JV> il) : items(il) {} bool operator==(const JV& o) const { return leaf == o.leaf && items == o.items; } };
+      using VJ = nop::Variant<int, JV>;
+      s.begin("initializer-list-alternative");
+      { VJ v(JV{JV(1), JV(2)}); VJ c(v); VJ m(VJ(JV{JV(1), JV(2)})); VJ a; a = v;
+        auto same = [](const VJ& x, const VJ& y) { const JV* p = x.get<JV>(); const JV* q = y.get<JV>(); return p && q && *p == *q; };
+        s.expect(same(c, v), "model:Variant.copy", "a copy-constructed Variant does not compare equal to its source (alternative with an initializer_list constructor)");
+        s.expect(same(m, v), "model:Variant.copy", "a move-constructed Variant does not hold the source's element (alternative with an initializer_list constructor)");
+        s.expect(same(a, v), "model:Variant.copy", "a copy-assigned Variant does not compare equal to its source"); }
+      s.end(); }
+    // a named, stateful visitor passed as an lvalue is the object that gets called (exactly once)
+    { struct Recorder { int calls = 0, last = -5; void operator()(nop::EmptyVariant) { calls++; last = -1; } void operator()(const TA&) { calls++; last = 0; } void operator()(const TB&) { calls++; last = 1; } void operator()(int) { calls++; last = 2; } void operator()(const std::string&) { calls++; last = 3; } };
+      s.begin("lvalue-visitor");
+      { V v; Recorder r0; v.Visit(r0); s.expect(r0.calls == 1 && r0.last == -1, "model:Variant.Visit-count", fmt("Visit(lvalue visitor) on an empty Variant: the visitor object was called %d times", r0.calls));
+        v = 7; Recorder r1; v.Visit(r1); s.expect(r1.calls == 1 && r1.last == 2, "model:Variant.Visit-count", fmt("Visit(lvalue visitor) on Variant holding int: the visitor object was called %d times (last alternative %d)", r1.calls, r1.last));
+        v = TA(3); Recorder r2; const V& cv = v; cv.Visit(r2); s.expect(r2.calls == 1 && r2.last == 0, "model:Variant.Visit-count", fmt("const Visit(lvalue visitor): the visitor object was called %d times", r2.calls));
+        v = std::string("x"); Recorder r3; v.Visit(r3); v.Visit(r3); s.expect(r3.calls == 2 && r3.last == 3, "model:Variant.Visit-count", fmt("two Visit calls with one lvalue visitor: it was called %d times", r3.calls)); }
+      s.end(); }
     using UV = nop::Variant<int, UCell>;
     s.begin("union-alternative");
     g_ucell_ctor = g_ucell_dtor = 0;
@@ -160,6 +178,7 @@ static void optional_decode_special(Special& s) {
   }
 }
 
+struct Greedy { int tag = 0; Greedy() = default; Greedy(const Greedy&) = default; Greedy(Greedy&&) = default; Greedy& operator=(const Greedy&) = default; Greedy& operator=(Greedy&&) = default; template <typename U, typename = std::enable_if_t<!std::is_same<std::decay_t<U>, Greedy>::value>> Greedy(U&&) : tag(99) {} };
 static void optional_special() {
   Special s{"c13"};
   optional_decode_special(s);
@@ -183,6 +202,29 @@ static void optional_special() {
     { s.begin(nm("Status")); Slab m(pat); ST* p = new (m.b) ST(); s.expect(!p->has_value() && !p->has_error(), "model:Status.state", "default Status<T> is not empty"); ST* q = new (m.b + 256) ST(nop::ErrorStatus::IOError); s.expect(q->has_error() && q->error() == nop::ErrorStatus::IOError, "model:Status.state", "Status(error) does not hold that error"); q->~ST(); p->~ST(); s.end(); }
     { s.begin(nm("Status-void")); Slab m(pat); using SV = nop::Status<void>; SV* p = new (m.b) SV(); s.expect((bool)*p && !p->has_error() && p->error() == nop::ErrorStatus::None, "model:Status.state", "default Status<void> is not success"); SV* q = new (m.b + 256) SV(std::move(*p)); s.expect((bool)*q, "model:Status.state", "moved Status<void>"); s.end(); }
   }
+  // copies from a non-const lvalue (a constructor template taking U&& is a better match than the copy constructor there) for element types that are
+  // constructible from the Result / Optional itself: bool (explicit operator bool) and a type with an unconstrained converting constructor
+  {
+    s.begin("copy-from-non-const-lvalue");
+    { using RB = nop::Result<E, bool>; RB err(E::X), empty, vf(false), vt(true);
+      RB c1(err); s.expect(c1.has_error() && c1.error() == E::X && !c1.has_value(), "model:Result.copy", "copy of a non-const Result<E,bool> holding an error does not hold that error");
+      RB c2(empty); s.expect(!c2.has_error() && !c2.has_value(), "model:Result.copy", "copy of an empty non-const Result<E,bool> is not empty");
+      RB c3(vf); s.expect(c3.has_value() && c3.get() == false, "model:Result.copy", "copy of a non-const Result<E,bool> holding false does not hold false");
+      RB c4(vt); s.expect(c4.has_value() && c4.get() == true, "model:Result.copy", "copy of a non-const Result<E,bool> holding true does not hold true");
+      RB a1; a1 = err; s.expect(a1.has_error() && a1.error() == E::X, "model:Result.copy", "copy assignment from a non-const Result<E,bool> holding an error");
+      RB m1(std::move(err)); s.expect(m1.has_error() && m1.error() == E::X, "model:Result.copy", "move construction from a Result<E,bool> holding an error"); }
+    { using RG = nop::Result<E, Greedy>; RG err(E::Y), empty; Greedy g; g.tag = 5; RG val(g);
+      RG c1(err); s.expect(c1.has_error() && c1.error() == E::Y, "model:Result.copy", "copy of a non-const Result<E,T> (T constructible from anything) holding an error");
+      RG c2(empty); s.expect(!c2.has_error() && !c2.has_value(), "model:Result.copy", "copy of an empty non-const Result<E,T> (T constructible from anything)");
+      RG c3(val); s.expect(c3.has_value() && c3.get().tag == 5, "model:Result.copy", "copy of a non-const Result<E,T> (T constructible from anything) holding a value"); }
+    { using OB = nop::Optional<bool>; OB e, f(false), t(true); OB c1(e), c2(f), c3(t); s.expect(c1.empty() && !c2.empty() && c2.get() == false && !c3.empty() && c3.get() == true, "model:Optional.copy", fmt("copy of a non-const Optional<bool> differs from its source: copy of empty is %s, copy of false is %s, copy of true is %s", c1.empty() ? "empty" : (c1.get() ? "true" : "false"), c2.empty() ? "empty" : (c2.get() ? "true" : "false"), c3.empty() ? "empty" : (c3.get() ? "true" : "false")));
+      OB a1(true), a2, a3; a1 = e; a2 = f; a3 = t; s.expect(a1.empty() && !a2.empty() && a2.get() == false && !a3.empty() && a3.get() == true, "model:Optional.copy", "copy assignment from a non-const Optional<bool> differs from its source");
+      OB m1(std::move(e)), m2(std::move(f)); s.expect(m1.empty() && !m2.empty() && m2.get() == false, "model:Optional.copy", "move construction from an Optional<bool> differs from its source");
+      nop::Entry<bool, 3> en, ent(true); OB fe(en), ft(ent); s.expect(fe.empty() && !ft.empty() && ft.get() == true, "model:Optional.copy", "Optional<bool> copied from a non-const Entry<bool> differs from it");
+      nop::Entry<bool, 3> ec(en), ec2(ent); s.expect(ec.empty() && !ec2.empty() && ec2.get() == true, "model:Entry.copy", "copy of a non-const Entry<bool> differs from its source");
+      nop::Optional<Greedy> ge; Greedy g5; g5.tag = 5; nop::Optional<Greedy> gv(g5); nop::Optional<Greedy> gc1(ge), gc2(gv); s.expect(gc1.empty() && !gc2.empty() && gc2.get().tag == 5, "model:Optional.copy", "copy of a non-const Optional<T> (T constructible from anything) differs from its source");
+      using SB = nop::Status<bool>; SB se(nop::ErrorStatus::IOError), sv(false); SB d1(se), d2(sv); s.expect(d1.has_error() && d1.error() == nop::ErrorStatus::IOError && d2.has_value() && d2.get() == false, "model:Status.copy", "copy of a non-const Status<bool> differs from its source"); }
+    s.end(); }
   // throwing element constructors inside assigning operations
   for (int prior = 0; prior < 2; prior++) for (int inj = 0; inj < 3; inj++) for (int op = 0; op < 14; op++) {
     static const char* const names[] = {"opt = T&&", "opt = const T&", "opt = Optional(copy)", "opt = Optional&&", "opt = Optional<int>", "entry = T&&", "entry = const T&", "entry = Entry(copy)", "opt = entry", "res = T&&", "res = const T&", "res = Result(copy)", "res = Result&&", "status = T&&"};
